@@ -138,6 +138,7 @@ type Sched struct {
 	ctxKids  map[interface{}][]context.Context
 	mainDone bool
 	allCost  bool
+	fieldRes map[interface{}]*fieldState
 }
 
 // S is the current execution (one at a time per process).
@@ -722,4 +723,77 @@ func (r *Resource) Access(write bool) {
 	} else {
 		r.reads = upd(r.reads)
 	}
+}
+
+// ---- plain memory accesses of the checked code (fields of its structs) ------
+
+// Rd / Wr record a read / write of the memory location whose address keyFn
+// returns (a field of a library struct), by the current thread, for the
+// vector-clock race detector. They are not scheduling points. site is the
+// source position (known when the code was rewritten). keyFn is evaluated
+// under recover: a nil receiver means the access does not happen here.
+func Rd(keyFn func() interface{}, site string) { fieldAccess(keyFn, site, false) }
+func Wr(keyFn func() interface{}, site string) { fieldAccess(keyFn, site, true) }
+
+func addrOf(keyFn func() interface{}) (key interface{}) {
+	defer func() { recover() }()
+	return keyFn()
+}
+
+type fieldState struct {
+	name   string
+	writes []facc
+	reads  []facc
+}
+
+type facc struct {
+	tid   int
+	clock uint32
+	site  string
+}
+
+func fieldAccess(keyFn func() interface{}, site string, write bool) {
+	s := S
+	if s == nil || s.aborting {
+		return
+	}
+	key := addrOf(keyFn)
+	if key == nil {
+		return
+	}
+	if s.fieldRes == nil {
+		s.fieldRes = map[interface{}]*fieldState{}
+	}
+	f := s.fieldRes[key]
+	if f == nil {
+		f = &fieldState{name: site}
+		s.fieldRes[key] = f
+	}
+	t := s.cur
+	check := func(list []facc, w bool) {
+		for _, a := range list {
+			if a.tid == t.ID || t.vc.get(a.tid) >= a.clock {
+				continue
+			}
+			s.Out.Races = append(s.Out.Races, Race{Resource: "library field",
+				A: Access{Thread: s.threads[a.tid].Name, Write: w, Site: a.site},
+				B: Access{Thread: t.Name, Write: write, Site: site}})
+		}
+	}
+	check(f.writes, true)
+	if write {
+		check(f.reads, false)
+	}
+	a := facc{tid: t.ID, clock: t.vc[t.ID], site: site}
+	list := &f.reads
+	if write {
+		list = &f.writes
+	}
+	for i := range *list {
+		if (*list)[i].tid == t.ID {
+			(*list)[i] = a
+			return
+		}
+	}
+	*list = append(*list, a)
 }
